@@ -335,6 +335,11 @@ func decodeRow(encodedRow []byte, colTypes map[uint32]sql.SQLValueType, maxColID
 	colsCount := binary.BigEndian.Uint32(encodedRow[off:])
 	off += sql.EncLenLen
 
+	// every encoded column takes at least its identifier
+	if uint64(colsCount) > uint64(len(encodedRow)-off)/uint64(sql.EncIDLen) {
+		return nil, sql.ErrCorruptedData
+	}
+
 	values := make(map[uint32]*schema.SQLValue, colsCount)
 
 	for i := 0; i < int(colsCount); i++ {
